@@ -2,7 +2,7 @@
 
 Three exhaustively enumerated parts, all on the REAL `opticomlib.devices.DM` / `FIBER`:
 
-A  `basis`  for every grid (N, layout, gv.fs) and every device parameter point: the FULL basis
+A  `basis`  for every grid (N, layout, gv configuration) and every device parameter point: the FULL basis
             e_k, j*e_k (which determines the linear operator), ones, a seeded random field, a noisy
             field, one-sided 2-pol fields and (N = 16) every superposition a*e_i + b*e_j, i < j,
             a, b in {1, -2+j}.  Oracle: out == ifft(fft(in) * H) row-wise with
@@ -17,6 +17,12 @@ C  `seq`    explicit-state search over span sequences (6-span alphabet, depth <=
             output objects; the reached field must equal (a) the model filter of the triple applied to
             the input, (b) the field reached by the single equivalent span, (c) the field reached by
             the first (shortest) history with the same model state.
+
+The sampling rate of the statement is `gv.fs`.  A gv configuration is a *call history* (GVCONF): besides
+gv(sps=, R=) every call form of gv() is enumerated - sps+fs, R+fs with an integer and with a non-integer
+ratio (rounded down / up / half-to-even), fs alone, sps alone, a slot count N in force, and two-call
+histories - so that gv.fs, gv.sps*gv.R and the grid of gv.w are pairwise different on part of the alphabet;
+the oracle of every part uses gv.fs only.
 
 Units (read from the docstrings): DM takes D in ps^2; FIBER takes length km, alpha dB/km,
 beta_2 ps^2/km, beta_3 ps^3/km.  The noise component is outside the statement (both blocks pass it
@@ -50,13 +56,38 @@ HORIZON = 60.0
 LD = np.longdouble
 PI_LD = LD(4) * np.arctan(LD(1))
 
-FSCONF = {            # gv configuration -> expected gv.fs
-    '16G': (dict(sps=16, R=1e9), 16e9),
-    '160G': (dict(sps=16, R=10e9), 160e9),
-    '320G': (dict(sps=32, R=10e9), 320e9),
-    '40G': (dict(sps=4, R=10e9), 40e9),
-    '1280G': (dict(sps=128, R=10e9), 1280e9),
+# gv configuration = call history after gv.clean() -> the gv.fs it must leave in force.  The docstring of gv():
+# "sps and R or fs given: the missing one is calculated; R and fs given: sps is calculated; only fs given: sps is
+# calculated from the instance's R" - a given fs is the sampling rate in force, otherwise fs = R*sps.
+# (defaults after clean(): sps = 16, R = 1e9.)  Third entry: the sps*R the documented rounding leaves behind
+# (informative only - it is what makes the configuration distinguish gv.fs from gv.sps*gv.R; never asserted).
+FSCONF = {
+    # --- form sps+R (fs == sps*R)
+    '16G': ([dict(sps=16, R=1e9)], 16e9, 16e9),
+    '160G': ([dict(sps=16, R=10e9)], 160e9, 160e9),
+    '320G': ([dict(sps=32, R=10e9)], 320e9, 320e9),
+    '40G': ([dict(sps=4, R=10e9)], 40e9, 40e9),
+    '1280G': ([dict(sps=128, R=10e9)], 1280e9, 1280e9),
+    # --- the other call forms
+    'sps+fs:100G': ([dict(sps=8, fs=100e9)], 100e9, 100e9),                    # R := 12.5e9
+    'sps:32G': ([dict(sps=32)], 32e9, 32e9),                                   # R stays at the default 1e9
+    'R+fs:80G': ([dict(R=10e9, fs=80e9)], 80e9, 80e9),                         # integer ratio
+    'R+fs:25G/10G': ([dict(R=10e9, fs=25e9)], 25e9, 20e9),                     # ratio 2.5 -> sps 2 (half to even): fs > sps*R
+    'R+fs:28G/10G': ([dict(R=10e9, fs=28e9)], 28e9, 30e9),                     # ratio 2.8 -> sps 3: fs < sps*R
+    'R+fs:33G/2.5G': ([dict(R=2.5e9, fs=33e9)], 33e9, 32.5e9),                 # ratio 13.2 -> sps 13
+    'fs:40G': ([dict(fs=40e9)], 40e9, 40e9),                                   # fs alone, integer multiple of the default R
+    'fs:24.5G': ([dict(fs=24.5e9)], 24.5e9, 24e9),                             # fs alone, ratio 24.5 -> sps 24
+    'N8:160G': ([dict(sps=16, R=10e9, N=8)], 160e9, 160e9),                    # gv.N/gv.t/gv.w (128 points) in force, signal lengths differ
+    # --- two-call histories
+    'sps+R,fs:25G': ([dict(sps=16, R=10e9), dict(fs=25e9)], 25e9, 20e9),       # fs alone against the R of the first call
+    'R+fs,sps+R:40G': ([dict(R=10e9, fs=25e9), dict(sps=4, R=10e9)], 40e9, 40e9),   # leaving an incommensurate state
+    'R+fs,sps:40G': ([dict(R=10e9, fs=25e9), dict(sps=4)], 40e9, 40e9),        # sps alone against the R of the first call
+    'N4,R+fs:28G': ([dict(sps=16, R=1e9, N=4), dict(R=10e9, fs=28e9)], 28e9, 30e9),   # N persists: gv.w has 4*3 points on 28e9
 }
+FS_BASE_QUICK = ['16G', '160G', '320G']
+FS_BASE_THOROUGH = ['40G', '1280G']
+FS_FORMS = [k for k in FSCONF if k not in FS_BASE_QUICK + FS_BASE_THOROUGH]
+N_FORMS_QUICK = [2, 3, 64]           # lengths on which the call-form configurations run in the quick tier (even/odd, small/large; thorough: every N)
 
 D_VALUES = [0, 17, -17, 300, -300, 4000, -4000]                    # ps^2
 F_L = [0.5, 3, 50]                                                 # km
@@ -76,12 +107,14 @@ SPANS = [
 
 
 def grids(tier):
+    """simplest first: by N, layout, then the sps+R configurations before the other call forms"""
     Ns = [1, 2, 3, 16, 17, 64, 65]
-    fss = ['16G', '160G', '320G']
+    fss = list(FS_BASE_QUICK)
     if tier == 'thorough':
         Ns += [5, 31, 32, 33, 128, 129]
-        fss += ['40G', '1280G']
-    out = [(N, pol, f) for N in sorted(Ns) for pol in (1, 2) for f in fss]
+        fss += FS_BASE_THOROUGH
+    Nf = sorted(Ns) if tier == 'thorough' else N_FORMS_QUICK
+    out = [(N, pol, f) for N in sorted(Ns) for pol in (1, 2) for f in fss + (FS_FORMS if N in Nf else [])]
     return out
 
 
@@ -142,10 +175,22 @@ def allpass(X, Hf):
 
 # --------------------------------------------------------------------------- the implementation under test
 def setup(fskey):
-    kw, fs = FSCONF[fskey]
-    gv = gv_reset(**kw)
-    assert gv.fs == fs, (gv.fs, fs)
+    """gv.clean(), then the call history of the configuration (silently); returns the gv.fs in force"""
+    import warnings
+    hist, fs, _ = FSCONF[fskey]
+    gv = gv_reset()
+    with warnings.catch_warnings():
+        warnings.simplefilter('ignore')
+        for kw in hist:
+            gv(**kw)
+    assert gv.fs == fs, (fskey, gv.fs, fs)
     return fs
+
+
+def gv_facts():
+    """what the configuration in force makes distinguishable (for the coverage statistics only)"""
+    from opticomlib.typing import gv
+    return {'fs_ne_sps*R': int(gv.sps * gv.R != gv.fs), 'gv.N_in_force': int(gv.N is not None)}
 
 
 def mk(X, noise=None):
@@ -318,6 +363,7 @@ def digest(arrs):
 def case_basis(case):
     (N, pol, fskey), dev, seed = case
     fs = setup(fskey)
+    facts = gv_facts()
     name = dev[0]
     cls = dev_class(dev)
     tag = f'{name} {dev[1:]}'
@@ -435,7 +481,8 @@ def case_basis(case):
     nontriv = (th > 0 or float(aL) > 0) and ('A', N, pol, fskey, dev)
     return res(viol=viol, obs=digest(outs), nontrivial=nontriv,
                stats={'A.lib_calls': len(labels) + 1 + (name == 'DM'), 'A.basis_inputs': 2 * N, 'A.superposition_inputs': len(meta),
-                      'A.retH_rows_compared': nreth, 'A.operators_recovered': len(ops)},
+                      'A.retH_rows_compared': nreth, 'A.operators_recovered': len(ops),
+                      'A.cases_fs_ne_sps*R': facts['fs_ne_sps*R'], 'A.cases_gv.N_in_force': facts['gv.N_in_force']},
                payload=worst)
 
 
@@ -459,6 +506,7 @@ def case_laws(case):
     (N, pol, fskey), law, seed = case
     from opticomlib.devices import DM, FIBER
     fs = setup(fskey)
+    facts = gv_facts()
     labels, arrs = short_inputs(N, pol, seed)
     Xs = rows3(np.array(arrs))
     nrm = norms(Xs)
@@ -524,7 +572,8 @@ def case_laws(case):
             viol.append(('DM:energy:chain', f'{what}: energy of the chained output deviates by {float(np.nanmax(rel)):.3e}'))
     return res(viol=viol, obs=digest([o.signal for o in lhs] + [o.signal for o in rhs]),
                nontrivial=nontriv and ('B', N, pol, fskey, law),
-               stats={'B.lib_calls': 3 * len(arrs) if kind != 'fiber-dm' else 2 * len(arrs), 'B.inputs': len(arrs)}, payload=worst)
+               stats={'B.lib_calls': 3 * len(arrs) if kind != 'fiber-dm' else 2 * len(arrs), 'B.inputs': len(arrs),
+                      'B.cases_fs_ne_sps*R': facts['fs_ne_sps*R']}, payload=worst)
 
 
 # --------------------------------------------------------------------------- part C: span sequences, accumulated-parameter model
@@ -569,6 +618,7 @@ def case_seq(case):
     (N, pol, fskey), seq, rep, seed = case
     from opticomlib.devices import DM, FIBER
     fs = setup(fskey)
+    facts = gv_facts()
     labels, arrs = short_inputs(N, pol, seed)
     Xs = rows3(np.array(arrs))
     nrm = norms(Xs)
@@ -638,7 +688,8 @@ def case_seq(case):
                                                 f'but reach different fields: input {labels[i]} row {r}, N={N}, fs={fs:g}: {err:.3e} > tol {tol:.3e}'))
     nontriv = (b2L != 0 or b3L != 0 or aL != 0 or len(seq) > 1) and ('C', N, pol, fskey, tuple(seq))
     return res(viol=viol, obs=digest(reached), nontrivial=nontriv,
-               stats={'C.lib_calls': ncalls, 'C.inputs': len(arrs), 'C.merged_into_earlier_state': int(tuple(rep) != tuple(seq))},
+               stats={'C.lib_calls': ncalls, 'C.inputs': len(arrs), 'C.merged_into_earlier_state': int(tuple(rep) != tuple(seq)),
+                      'C.cases_fs_ne_sps*R': facts['fs_ne_sps*R']},
                payload=worst)
 
 
@@ -646,13 +697,30 @@ def case_seq(case):
 def self_check():
     """the extended-precision grid of the reference is the DESIGN formula w = 2*pi*fftfreq(N)*fs"""
     for N in (1, 2, 3, 16, 17, 64, 65, 129):
-        for fs in (16e9, 320e9):
+        for fs in sorted(set(c[1] for c in FSCONF.values())):
             w = 2 * np.pi * np.fft.fftfreq(N) * fs
             wp = (grid_wp(N, fs) * LD(10 ** 12)).astype(float)
             assert np.all(np.abs(w - wp) <= 4 * EPS * np.abs(wp)), (N, fs)
     # the model of the alphabet: aL stays inside the validity range of the loss band
     worst = max(float(span_model(i)[2]) for i in range(len(SPANS))) * 3
     assert worst <= 60.0
+    # the configuration alphabet separates gv.fs from sps*R in both directions and holds every call form
+    assert any(c[1] > c[2] for c in FSCONF.values()) and any(c[1] < c[2] for c in FSCONF.values())
+    forms = {tuple(sorted(k for k in kw if k in ('sps', 'R', 'fs'))) for c in FSCONF.values() for kw in c[0]}
+    assert forms == {('R', 'sps'), ('fs', 'sps'), ('R', 'fs'), ('fs',), ('sps',)}, forms
+    assert set(N_FORMS_QUICK) <= {1, 2, 3, 16, 17, 64, 65}
+
+
+def gv_table(keys):
+    """the state every enumerated configuration leaves behind on the tree under test (recorded in the evidence)"""
+    from opticomlib.typing import gv
+    out = {}
+    for k in keys:
+        setup(k)
+        out[k] = {'calls': [{a: b for a, b in kw.items()} for kw in FSCONF[k][0]], 'gv.fs': gv.fs, 'gv.sps': gv.sps, 'gv.R': gv.R,
+                  'gv.sps*gv.R': gv.sps * gv.R, '1/gv.dt - gv.fs': 1 / gv.dt - gv.fs, 'len(gv.w)': None if gv.w is None else len(gv.w)}
+    gv_reset()
+    return out
 
 
 def run(ctx):
@@ -664,6 +732,11 @@ def run(ctx):
     seed = ctx.seed
     ctx.space('grids(N,layout,fs)', len(G))
     ctx.space('devices(7 DM + 135 FIBER)', len(devs))
+    fkeys = sorted(set(g[2] for g in G), key=list(FSCONF).index)
+    nform = sorted(set(g[0] for g in G if g[2] in FS_FORMS))
+    ctx.rule(f'gv configurations = call histories after clean(): sps+R {[k for k in fkeys if k not in FS_FORMS]} on every N; the other call forms and two-call '
+             f'histories {[k for k in fkeys if k in FS_FORMS]} on N in {nform}; {sum(1 for k in fkeys if FSCONF[k][1] != FSCONF[k][2])} of them leave gv.fs != gv.sps*gv.R '
+             f'(non-integer fs/R, rounded down/up/half-even), 2 leave a gv.w of another length in force; every oracle uses gv.fs')
     ctx.rule(f'A: every grid (N in {sorted(set(g[0] for g in G))} x 1/2 pol x gv.fs in {sorted(set(FSCONF[g[2]][1] for g in G))}) x every device '
              f'(D in {D_VALUES} ps^2; FIBER L{F_L} x alpha{F_ALPHA} x beta2{F_B2} x beta3{F_B3}, gamma=0) on the full basis e_k, j*e_k (2N inputs), ones, seeded random, '
              f'one-sided 2-pol, a noisy field, and for N=16 all 480 superpositions a*e_i+b*e_j; operator recovered from the basis and compared with retH')
@@ -674,7 +747,8 @@ def run(ctx):
              f'the single equivalent span, and the first history of the same model state')
     ctx.assume('numpy.fft is a correct DFT (it is the reference transform; C02 checks the library transforms against it)')
     ctx.assume('x87 extended precision (np.longdouble, 64-bit mantissa) is used for the phase argument of the reference filter')
-    ctx.assume('gv(sps=, R=) puts fs = R*sps in force (C14); the check asserts it before every case')
+    ctx.assume('every gv() call form leaves the documented gv.fs in force (a given fs as given, otherwise R*sps; C14 checks gv itself); the check asserts gv.fs before every case '
+               'and reads nothing else from gv')
     ctx.assume('the noise component is outside the statement: only its shape is checked; for a noisy input either the signal part or the total field may obey the filter')
     ctx.assume(f'loss law band {LOSS_BAND} relative (the alpha/4.343 constant), rounding tolerance eps*(64*stages + 16*sum|theta|max)*||in_row||_2')
 
@@ -712,6 +786,7 @@ def run(ctx):
         frontier = nxt
         print(f'[C07] span sequences depth {d}: sequences={len(nxt)} model states so far={len(seen)} transitions so far={transitions}', flush=True)
     ctx.graph(states=len(seen) * len(G), transitions=transitions)
+    ctx.extra['gv_configurations'] = gv_table(fkeys)
     ctx.extra['span_search'] = {'alphabet': [' '.join(s) for s in SPANS], 'depth': depth, 'model_states_per_grid': len(seen),
                                 'sequences_per_grid': sum(len(SPANS) ** k for k in range(1, depth + 1)), 'grids': len(G)}
     ctx.extra['worst_error_over_tolerance'] = {k: round(v, 4) for k, v in worst.items()}
